@@ -76,6 +76,7 @@ def explore(ck):
                 ck.disagreement('model: obfuscated and plaintext directory differ on ' + c.id, '', c, in_domain=False)
         ck.count('kind:' + c.meta['kind']); ck.count('keylen:%d' % c.meta['keylen']) if c.xor is not None else None
     # ---- in-process: XorReader<BufReader<_>> against the Coq mirror ----
+    if not run.hooks_ok(ck): return
     lines = []
     for i in range(150 if quick else 1500):
         size = r.choice([0, 1, 5, 40, 200, 1000]); data = gen.rb(r, size)
